@@ -39,7 +39,7 @@ ASSUMPTIONS = ['_RangeIterator read-ahead size is >= 1 (max_batch_size >= 1).',
 
 
 def run(ctx: Ctx):
-  for r in (r1, r2, r3, r4, r6, r7, r8, r9, r10, r12):
+  for r in (r1, r2, r3, r4, r6, r7, r8, r9, r10, r12, r13):
     ctx.guard(r)
   from mlmverif.props import c10
   ctx.include('R-C09-11', '"rebuilding a shard from its recorded state yields the same'
@@ -870,10 +870,55 @@ def _tests_own_emptiness(t: ast.AST, iv: str) -> bool:
   return isinstance(t, ast.Subscript) and unparse(t.value).endswith('_sequences') and offs(t.slice) == 0
 
 
+def r13(ctx: Ctx):
+  rule = 'R-C09-13'
+  ctx.rule(rule, '"indexes ... exactly like their concatenation": MergedSequences._index normalises a'
+           ' negative index by adding the length ONCE (index + len), so that an out-of-range negative'
+           ' index stays negative / out of range and raises like it does on a list. The value on the'
+           ' `index < 0` branch is the polynomial len + index; a modulo (or any other wrap-around)'
+           ' makes [[0]][-2] return 0 where the concatenation raises IndexError')
+  fi = ctx.repo.func('utils.iter_utils', 'MergedSequences._index')
+  p = fi.params()[1]
+  L, i = af.V('L'), af.V('i')
+  n = 0
+  for x in walk_no_nested(fi.node):
+    if isinstance(x, ast.Assign) and any(isinstance(t, ast.Name) and t.id == p for t in x.targets):
+      v = x.value
+      arms = []
+      if isinstance(v, ast.IfExp) and isinstance(v.test, ast.Compare) and unparse(v.test.left) in (p, '0'):
+        t = v.test
+        neg_first = (unparse(t.left) == p and isinstance(t.ops[0], ast.Lt) and unparse(t.comparators[0]) == '0') or (
+            unparse(t.left) == '0' and isinstance(t.ops[0], ast.Gt))
+        arms = [v.body if neg_first else v.orelse]
+      else:
+        arms = [v]
+      for arm in arms:
+        n += 1
+        ev = af.AffEval({p: i, 'len(self)': L})
+        try:
+          got = ev.expr(arm)
+        except af.AffUnsupported as e:
+          ctx.fail(rule, fi, 'MergedSequences._index: a negative index is index + len(self)',
+                   f'`{unparse(arm)}` is not the affine normalisation index + len(self) ({e}): a wrap-around'
+                   ' (modulo) maps out-of-range negative indices onto valid elements instead of raising'
+                   ' IndexError like the concatenated list', node=arm)
+          continue
+        if (got - (L + i)).is_zero():
+          ctx.ok(rule, fi, 'negative index -> len(self) + index', arm)
+        else:
+          ctx.fail(rule, fi, 'MergedSequences._index: a negative index is index + len(self)',
+                   f'a negative index is normalised to {got!r} instead of L + i', node=arm)
+  ctx.floor(rule, 1, n)
+
+
 from mlmverif.selfcheck import B, OK  # noqa: E402
 
 _F = 'chainables/io.py'
 VARIANTS = [
+    B('negative-index-wraps-with-modulo', 'utils/iter_utils.py',
+      '    index = len(self) + index if index < 0 else index', '    index = index % len(self) if index < 0 else index', 'R-C09-13'),
+    OK('negative-index-operands-swapped', 'utils/iter_utils.py',
+       '    index = len(self) + index if index < 0 else index', '    index = index + len(self) if index < 0 else index'),
     B('shard-start-closed-form-wrong-stride', 'chainables/io.py',
       '    start, adjusted_interval = self.start, 0\n    for i in range(shard_index + 1):\n      adjusted_interval = interval + 1 if i < remainder else interval\n      start += adjusted_interval if i < shard_index else 0',
       '    stride = interval + 1 if remainder else interval\n    start = self.start + shard_index * stride\n    adjusted_interval = interval + 1 if shard_index < remainder else interval',
